@@ -200,7 +200,7 @@ func vf10GenHandshakeInput(rt *rapid.T, br vfBridge, ent func(int) []byte) vf10H
 	in := vf10HandshakeInput{RealIsClient: rapid.Bool().Draw(rt, "realIsClient")}
 	in.End = rapid.SampledFrom([]string{"eof", "readerr", "deadline"}).Draw(rt, "end")
 	pub := refobfs4.Identity{Pub: br.ID.Pub, NodeID: br.ID.NodeID}
-	kind := rapid.SampledFrom([]string{"random", "random-big", "mark-then-garbage", "valid-prefix", "valid-plus-garbage", "huge"}).Draw(rt, "inputKind")
+	kind := rapid.SampledFrom([]string{"random", "random-big", "mark-then-garbage", "valid-prefix", "valid-plus-garbage", "huge", "low-order-key"}).Draw(rt, "inputKind")
 	switch kind {
 	case "random":
 		in.Data = ent(rapid.IntRange(0, 300).Draw(rt, "len"))
@@ -221,6 +221,21 @@ func vf10GenHandshakeInput(rt *rapid.T, br vfBridge, ent func(int) []byte) vf10H
 			hs := append([]byte(nil), cl.Handshake()...)
 			hs[len(hs)-1] ^= 1
 			in.Data = hs
+		}
+	case "low-order-key":
+		// valid in every respect that needs public knowledge only (length, mark, MAC
+		// with the current hour), but the key representative maps to a low-order
+		// point: every Diffie-Hellman result is all-zero (or the library refuses the
+		// point) - the handshake must fail with an error, not crash
+		reprs := vfLowOrderReprs()
+		r := append([]byte(nil), reprs[rapid.IntRange(0, len(reprs)-1).Draw(rt, "lowRepr")]...)
+		r[31] |= byte(rapid.IntRange(0, 3).Draw(rt, "lowTop")) << 6
+		if in.RealIsClient {
+			body := append(append(append([]byte(nil), r...), ent(32)...), ent(rapid.IntRange(0, 300).Draw(rt, "pad"))...)
+			in.Data = append(refobfs4.ReMAC(pub, body, vfHourNow()), ent(rapid.IntRange(0, 100).Draw(rt, "tail"))...)
+		} else {
+			cl := &refobfs4.Client{ID: pub, Key: refobfs4.EKey{Repr: r, Pub: refobfs4.ReprToPublic(r)}, Pad: ent(rapid.IntRange(77, 400).Draw(rt, "pad")), Hour: vfHourNow()}
+			in.Data = append([]byte(nil), cl.Handshake()...)
 		}
 	case "valid-prefix", "valid-plus-garbage":
 		var hs []byte
@@ -253,7 +268,7 @@ func vf10GenHandshakeInput(rt *rapid.T, br vfBridge, ent func(int) []byte) vf10H
 func TestVerifC10Obfs4Handshake(t *testing.T) {
 	vfSetup(t)
 	c := ev.For("C10")
-	c.Rule("obfs4-handshake: a real client (Dial) or server (WrapConn) is fed generated bytes in place of the peer's handshake (random, 8 KiB boundary lengths, up to 1 MiB, correct mark with wrong MAC, truncated valid handshake, valid-looking handshake plus garbage) in generated segments, ended by EOF, an injected read error or the fired deadline; oracle: no panic, released bytes are consumed, the handshake call returns an error once the input has ended, a deadline was armed before the first read (and is cleared after a success), no data surfaces; non-trivial = input of at least 64 bytes (gets past the minimum-length test of the parser); fingerprint = role, input kind, length, plan, ending")
+	c.Rule("obfs4-handshake: a real client (Dial) or server (WrapConn) is fed generated bytes in place of the peer's handshake (random, 8 KiB boundary lengths, up to 1 MiB, correct mark with wrong MAC, truncated valid handshake, valid-looking handshake plus garbage) in generated segments, ended by EOF, an injected read error or the fired deadline; oracle: no panic, released bytes are consumed, the handshake call returns an error once the input has ended, a deadline was armed before the first read (and is cleared after a success), no data surfaces; non-trivial = input of at least 64 bytes (gets past the minimum-length test of the parser); fingerprint = role, input kind, length, plan, ending; plus handshakes that are valid in everything public knowledge allows (length, mark, MAC with the current hour) but whose key representative maps to a low-order point")
 	rapid.Check(t, func(rt *rapid.T) {
 		rk := rapid.Uint64().Draw(rt, "randKey")
 		defer vfRandSeedKey(rk)()
